@@ -114,6 +114,8 @@ macro_rules! common_types {
         harness!(c13_u128x4_into_u64x2x4, convert::<U128x4, U64x2x4, 4>());
 
         harness!(c13_machine_wrappers, machine_wrappers::<M>());
+        harness!(c13_u32x4_unsafe_from_eq, unsafe_from_eq::<U32x4, u32, 4, 1>());
+        harness!(c13_u64x2_unsafe_from_eq, unsafe_from_eq::<U64x2, u64, 2, 1>());
     };
 }
 
